@@ -621,7 +621,7 @@ class Interp:
                 ra = z3.ToReal(a) if isinstance(a, z3.ArithRef) and a.is_int() else (z3.RealVal(a) if not isinstance(a, z3.ExprRef) else a)
                 rb = z3.ToReal(b) if isinstance(b, z3.ArithRef) and b.is_int() else (z3.RealVal(b) if not isinstance(b, z3.ExprRef) else b)
                 return ra / rb
-            if name == 'Mod': return a % b
+            if name == 'Mod': return _z3_mod(a, b)
             if name in ('Add', 'Sub', 'Mult'): return _BINOPS[op](a, b)
             raise Outside(f'binop {name} on z3 terms')
         return self.world.native_binop(name, a, b, self)
@@ -859,9 +859,20 @@ def _walk_no_nested(node):
             todo.append(c)
 
 def _z3_floordiv(a, b):
-    # Python floor division on reals/ints with positive concrete divisor
-    if isinstance(b, (int, float)) and b > 0:
+    "Python floor division of a z3 term by a concrete non-zero divisor: floor(a / b) (z3's ToInt is floor)"
+    if isinstance(b, (int, float)) and not isinstance(b, bool) and b != 0:
         if isinstance(a, z3.ArithRef) and a.is_real():
             return z3.ToReal(z3.ToInt(a / b))
-        return a / b          # z3 Int division is floor for positive divisor
-    raise Outside('floor division by symbolic/non-positive divisor')
+        if b > 0: return a / b          # z3 Int division is floor for a positive divisor
+        return z3.ToInt(z3.ToReal(a) / z3.RealVal(b))
+    raise Outside('floor division by a symbolic or zero divisor')
+
+def _z3_mod(a, b):
+    "Python remainder (sign of the divisor) of a z3 term by a concrete non-zero divisor: a - b * floor(a / b)"
+    if isinstance(b, (int, float)) and not isinstance(b, bool) and b != 0:
+        if isinstance(a, z3.ArithRef) and a.is_real():
+            return a - b * z3.ToReal(z3.ToInt(a / b))
+        if b > 0: return a % b
+        return a - b * _z3_floordiv(a, b)
+    if isinstance(b, z3.ExprRef) and isinstance(a, z3.ArithRef) and a.is_int() and isinstance(b, z3.ArithRef) and b.is_int(): return a % b
+    raise Outside('remainder by a symbolic or zero divisor')
